@@ -36,7 +36,7 @@ func (c C20Case) scenario(f *Fault) *Scenario {
 }
 
 var c20Variants = []struct{ Ctx, Err string }{
-	{"", "canceled"}, {"cancel", "canceled"}, {"deadline", "deadline"}, {"parent", "canceled"}, {"", "deadline"}, {"cause", "canceled"},
+	{"", "canceled"}, {"cancel", "canceled"}, {"deadline", "deadline"}, {"parent", "canceled"}, {"", "deadline"}, {"cause", "canceled"}, {"farcancel", "canceled"},
 }
 
 var c20Kinds = []string{"query", "first", "exists", "match", "existsormatch"}
